@@ -179,7 +179,7 @@ pub fn apply(d: &mut Vec<u8>, m: &Mutation) {
                 }
             }
         }
-        Mutation::SwapFields(..) | Mutation::RepeatField(..) | Mutation::DropField(..) | Mutation::AppendField { .. } => {
+        Mutation::SwapFields(..) | Mutation::RepeatField(..) | Mutation::DropField(..) | Mutation::AppendField { .. } | Mutation::PutField { .. } => {
             let framed = d.len() >= 12 && &d[..8] == r::MAGIC;
             let payload = if framed { &d[12..] } else { &d[..] };
             if let Ok((mut msg, _)) = r::decode(payload) {
@@ -197,6 +197,9 @@ pub fn apply(d: &mut Vec<u8>, m: &Mutation) {
                         if !msg.has(*tag) {
                             msg.put(*tag, &vec![0u8; *len as usize / 4 * 4]);
                         }
+                    }
+                    Mutation::PutField { tag, value } => {
+                        msg.put(*tag, value);
                     }
                     _ => {}
                 }
